@@ -173,9 +173,19 @@ impl StateSpace for SO3StateSpace {
             return;
         }
 
-        let t = *max_angle / actual_distance;
+        let mut t = *max_angle / actual_distance;
         let original_state = state.clone();
         self.interpolate(center_rotation, &original_state, t, state);
+        // Close to the centre `interpolate` blends linearly, which is not exactly constant-speed:
+        // the result can lie a little beyond the cone. Pull it back until it is inside.
+        for _ in 0..4 {
+            let reached = self.distance(center_rotation, state);
+            if reached <= *max_angle {
+                break;
+            }
+            t *= *max_angle / reached;
+            self.interpolate(center_rotation, &original_state, t, state);
+        }
     }
 
     /// Checks if a state is within the defined "cone of freedom" bounds.
